@@ -50,8 +50,12 @@ Definition body (h : hdr) (subs : list node) (sub : done -> node -> cres) (d : d
   let seq := seq_nodes sub in
   let own := emit h (EvResolve (h_module h) (h_class h)) in
   match h_kind h with
-  | KList | KSet | KTuple | KCtorReduce | KRandomState | KObject | KOperatorFunc =>
+  | KList | KSet | KTuple | KCtorReduce | KObject | KOperatorFunc =>
       then_ (own d) (seq subs)
+  | KRandomState =>
+      (* the state first; the bit generator class it names is looked up in numpy.random (a RandomState keeps the bit
+         generator it is created over: RandomState(PCG64) could not be loaded before); then the class itself *)
+      then_ (seq subs d) (fun d => then_ (emit h (EvFixedModDyn (s "numpy.random")) d) own)
   | KDict =>
       (* for k_type, (key, val) in zip(key_types, content.items()): only as many values are constructed
          as the key_types list has entries *)
